@@ -206,9 +206,8 @@ theorem describe_tmReal :
        simp only [hal, Bool.false_eq_true, if_false, dite_false] at ih hr
        exact ih hnm hpl (.inr ⟨rfl, by simpa using h⟩) r hr m hm
        done)
-    | (rename_i h _ _ _ _ _ _ _ _ _ _ _
-       subst hr; simp only [List.mem_singleton] at hm; subst hm
-       exact tmReal_tm cfg sfh ho ⟨hpl, id⟩ (by simpa using h)
+    | (subst hr; simp only [List.mem_singleton] at hm; subst hm
+       exact tmReal_tm cfg sfh ho ⟨hpl, id⟩ (by simpa using ‹¬asg cfg sfh _ _ = true›)
        done)
     | (rename_i _ r hr m hm; simp [descAll] at hr; subst hr; cases hm; done)
     | (rename_i ih hI r hr m hm
